@@ -3,6 +3,7 @@ summaries for crate-local callees and optional resolution of parameters over all
 from . import hir
 
 TRANSPARENT = set(hir.TRANSPARENT_METHODS) | {
+    "filter",
     "unwrap",
     "expect",
     "unwrap_or_default",
